@@ -34,6 +34,7 @@ def main():
         return mod.replay(json.load(open(args.replay)))
     common.install_watchdog(int(os.environ.get('VERIF_WATCHDOG_S', 2400 if args.tier == 'quick' else 6 * 3600)), prop)
     rep = common.Report(prop, args.tier, seed)
+    hung = False
     try:
         import lazy_dataset
         if not os.path.realpath(lazy_dataset.__file__).startswith(os.path.realpath(REPO)):
@@ -64,8 +65,25 @@ def main():
             if rc != 0:
                 raise common.Infra('leanchecker rejected ' + ' '.join(mods) + ': ' + out[-1500:])
         common.install_gc_guard()
-        mod.run(rep)
+        import canon
+        try:
+            mod.run(rep)
+        except canon.Hang as h:
+            # the code under test did not come back: on the unchanged tree every case takes
+            # milliseconds to seconds
+            rep.violation({'property': prop, 'kind': 'no-termination',
+                           'what_no_longer_checks': f'a single case of the correspondence / oracle run of {prop} did not return within '
+                                                    f'{common.CASE_TIMEOUT_S} s (case: {h.args[0] if h.args else None!r}); '
+                                                    'the run was abandoned there',
+                           'traceback': traceback.format_exc()[-3000:]}, no_input=True)
+            hung = True
+        finally:
+            common.disarm_case_timeout()
         rc = rep.finish(level='proof')
+        if hung:
+            sys.stdout.flush()
+            sys.stderr.flush()
+            os._exit(rc)          # threads of the abandoned case may never end
     except common.Infra as e:
         print(f'INFRASTRUCTURE-ERROR property={prop}: {e}', file=sys.stderr)
         sys.stderr.flush()
